@@ -16,8 +16,11 @@ func init() {
 	domains["output"] = domain{runOutput,
 		"byte strings over {a,b,newline,CR,space,'[',']','%'} cut into random chunks (empty chunks, partial lines, no trailing newline, empty output) " +
 			"written through the real prefixed / group writers into a sink that records every Write; single-writer cases compare the exact sink " +
-			"blocks, concurrent cases (2–4 writers in goroutines, distinct prefixes / begin markers, or one shared prefix with writer-specific line content) must be an interleaving of the writers' atomic " +
-			"blocks. non-trivial = more than one chunk and at least one line split across chunks, or a concurrent case; distinct by content+chunking"}
+			"writes (one per prefixed line, one per group block); multi-producer cases: 2–4 goroutines write their own chunk sequences (producer-specific " +
+			"letters, shared newlines) to the stdout / stderr writers of ONE wrapped writer, the sink must be what the writer emits for some interleaving " +
+			"of the chunk sequences; concurrent cases (2–4 writers in goroutines, distinct prefixes / begin markers, or one shared prefix with " +
+			"writer-specific line content; with prefixed writers, raw writers — a task with interactive: true, Task's own log lines — in between) must be an " +
+			"interleaving of the writers' writes. non-trivial = more than one chunk and at least one line split across chunks, or a multi-producer / concurrent case; distinct by content+chunking"}
 }
 
 type recSink struct {
@@ -51,6 +54,10 @@ type outWriter struct {
 	// its stdout writer.  Both streams of one command share one line buffer / one group buffer, so the
 	// model does not look at the tag: every byte written to either stream must come out.
 	Err []bool `json:"err,omitempty"`
+	// Prods: the chunk sequences of FURTHER producers of the same command (the stages of a pipeline, a stage's stderr,
+	// background jobs): each is written from its own goroutine, concurrently with `Chunks`, producer j to the stdout
+	// writer when j is even and to the stderr writer when it is odd.  The closer is called when all are done.
+	Prods [][]string `json:"prods,omitempty"`
 }
 
 type outCase struct {
@@ -64,15 +71,35 @@ func nlIf(s string) string {
 	return s + "\n"
 }
 
-func (w outWriter) tokens() string {
+func chunkTokens(cs []string) string {
 	var b strings.Builder
-	if w.Kind == "p" {
-		fmt.Fprintf(&b, "%s %d", hx(w.Prefix), len(w.Chunks))
-	} else {
-		fmt.Fprintf(&b, "%s %s %s %s %d", hx(nlIf(w.Begin)), hx(nlIf(w.End)), b2s(w.ErrorOnly), b2s(w.Failed), len(w.Chunks))
-	}
-	for _, c := range w.Chunks {
+	fmt.Fprintf(&b, "%d", len(cs))
+	for _, c := range cs {
 		b.WriteString(" " + hx(c))
+	}
+	return b.String()
+}
+
+func (w outWriter) head() string {
+	switch w.Kind {
+	case "p":
+		return hx(w.Prefix)
+	case "g":
+		return fmt.Sprintf("%s %s %s %s", hx(nlIf(w.Begin)), hx(nlIf(w.End)), b2s(w.ErrorOnly), b2s(w.Failed))
+	}
+	return ""
+}
+
+func (w outWriter) tokens() string {
+	return strings.TrimSpace(w.head() + " " + chunkTokens(w.Chunks))
+}
+
+// multiTokens: `<head> <k> {<n> <chunk>*}^k` — all producers of the one writer
+func (w outWriter) multiTokens() string {
+	var b strings.Builder
+	fmt.Fprintf(&b, "%s %d %s", w.head(), 1+len(w.Prods), chunkTokens(w.Chunks))
+	for _, p := range w.Prods {
+		b.WriteString(" " + chunkTokens(p))
 	}
 	return b.String()
 }
@@ -81,6 +108,11 @@ type outPair struct{ out, err io.Writer }
 
 func wrap(w outWriter, sink io.Writer, pfx *export.OutputPrefixed) (outPair, export.OutputCloseFunc) {
 	cache := &export.TemplaterCache{Vars: ast.NewVars()}
+	if w.Kind == "r" {
+		// what runCommand uses for a task with `interactive: true`; Task's own log lines reach the stream the same way
+		o, e, cl := export.OutputInterleaved{}.WrapWriter(sink, sink, w.Prefix, cache)
+		return outPair{o, e}, cl
+	}
 	if w.Kind == "p" {
 		o, e, cl := pfx.WrapWriter(sink, sink, w.Prefix, cache)
 		return outPair{o, e}, cl
@@ -90,22 +122,59 @@ func wrap(w outWriter, sink io.Writer, pfx *export.OutputPrefixed) (outPair, exp
 	return outPair{o, e}, cl
 }
 
-func drive(w outWriter, pair outPair, cl export.OutputCloseFunc, yield bool) {
+func drive(w outWriter, pair outPair, cl export.OutputCloseFunc, yield bool) (panicked bool) {
+	var pmu sync.Mutex
+	var wg sync.WaitGroup
+	for j, cs := range w.Prods {
+		j, cs := j, cs
+		wg.Add(1)
+		go func() {
+			defer wg.Done()
+			defer func() {
+				if r := recover(); r != nil {
+					pmu.Lock()
+					panicked = true
+					pmu.Unlock()
+				}
+			}()
+			out := pair.out
+			if (j+1)%2 == 1 {
+				out = pair.err
+			}
+			for _, c := range cs {
+				out.Write([]byte(c))
+				if len(c)%2 == 0 && len(cs) < 100 {
+					runtime.Gosched()
+				}
+			}
+		}()
+	}
 	for i, c := range w.Chunks {
 		out := pair.out
 		if i < len(w.Err) && w.Err[i] {
 			out = pair.err
 		}
 		out.Write([]byte(c))
-		if yield {
+		if yield || (len(w.Prods) > 0 && len(c)%2 == 1 && len(w.Chunks) < 100) {
 			runtime.Gosched()
 		}
 	}
+	wg.Wait()
 	var err error
 	if w.Failed {
 		err = errors.New("exit status 1")
 	}
 	cl(err)
+	return panicked
+}
+
+func sinkTokens(sink *recSink) string {
+	var b strings.Builder
+	fmt.Fprintf(&b, "S %d", len(sink.writes))
+	for _, wr := range sink.writes {
+		b.WriteString(" " + hx(string(wr)))
+	}
+	return b.String()
 }
 
 func evalOutput(d outCase) (cl string, il string) {
@@ -117,30 +186,20 @@ func evalOutput(d outCase) (cl string, il string) {
 	sink := &recSink{}
 	logger := &export.Logger{Stdout: sink, Stderr: sink, Color: false}
 	pfx := export.OutputNewPrefixed(logger)
+	if len(d.Writers) == 1 && len(d.Writers[0].Prods) > 0 {
+		// several producers, one writer
+		w := d.Writers[0]
+		out, closer := wrap(w, sink, pfx)
+		if drive(w, out, closer, false) {
+			return "output.multi " + w.Kind + " " + w.multiTokens() + " S 0", "panic"
+		}
+		return "output.multi " + w.Kind + " " + w.multiTokens() + " " + sinkTokens(sink), "accept"
+	}
 	if len(d.Writers) == 1 {
 		w := d.Writers[0]
 		out, closer := wrap(w, sink, pfx)
 		drive(w, out, closer, false)
-		if w.Kind == "p" {
-			// canonical form: one block per emitted line = concatenation of the (non-empty) writes "[", prefix, "] ", line
-			var blocks []string
-			cur := ""
-			for _, wr := range sink.writes {
-				if string(wr) == "[" && cur != "" && strings.HasSuffix(cur, "\n") {
-					blocks = append(blocks, cur)
-					cur = ""
-				}
-				cur += string(wr)
-			}
-			if cur != "" {
-				blocks = append(blocks, cur)
-			}
-			parts := []string{fmt.Sprint(len(blocks))}
-			for _, b := range blocks {
-				parts = append(parts, hx(b))
-			}
-			return "output.prefixed " + w.tokens(), strings.Join(parts, " ")
-		}
+		// the exact sink writes (empty ones aside): ONE per prefixed line, ONE per group block
 		parts := []string{}
 		n := 0
 		for _, wr := range sink.writes {
@@ -150,7 +209,11 @@ func evalOutput(d outCase) (cl string, il string) {
 			n++
 			parts = append(parts, hx(string(wr)))
 		}
-		return "output.group " + w.tokens(), strings.TrimSpace(fmt.Sprint(n) + " " + strings.Join(parts, " "))
+		op := "output.group "
+		if w.Kind == "p" {
+			op = "output.prefixed "
+		}
+		return op + w.tokens(), strings.TrimSpace(fmt.Sprint(n) + " " + strings.Join(parts, " "))
 	}
 	sink.yield = true
 	var wg sync.WaitGroup
@@ -166,10 +229,7 @@ func evalOutput(d outCase) (cl string, il string) {
 	for _, w := range d.Writers {
 		fmt.Fprintf(&b, " %s %s", w.Kind, w.tokens())
 	}
-	fmt.Fprintf(&b, " S %d", len(sink.writes))
-	for _, wr := range sink.writes {
-		b.WriteString(" " + hx(string(wr)))
-	}
+	b.WriteString(" " + sinkTokens(sink))
 	return b.String(), "accept"
 }
 
@@ -239,6 +299,77 @@ func (c *Ctx) genWriter(i int, kind string) outWriter {
 	return w
 }
 
+// genMulti: one wrapped writer fed by k producers.  Producer j writes letters of its own (so the order of the chunks in
+// the interleaved stream can be read off the output) and newlines (shared: a line is completed by whoever writes the
+// next newline); short chunks, about one newline every second chunk, so that lines are made of chunks of several producers.
+func (c *Ctx) genMulti(kind string) outWriter {
+	k := 2 + c.Rng.Intn(3)
+	// one case in five is HEAVY: hundreds of chunks per producer, written without yielding — what a pipeline whose
+	// stages print in loops does to the one buffer
+	heavy := c.Rng.Intn(5) == 0
+	if heavy {
+		c.Hit("multi-producer:heavy")
+	}
+	mk := func(j int) []string {
+		n := 4 + c.Rng.Intn(c.Pick(28, 60))
+		if heavy {
+			n = 300 + c.Rng.Intn(500)
+		}
+		var cs []string
+		for i := 0; i < n; i++ {
+			var sb strings.Builder
+			for l := c.Rng.Intn(4); l > 0; l-- {
+				sb.WriteByte(byte('a' + 2*j + c.Rng.Intn(2)))
+			}
+			switch c.Rng.Intn(4) {
+			case 0:
+				sb.WriteString("\n")
+			case 1:
+				// a newline in the middle: the chunk completes a line and starts the next
+				sb.WriteString("\n" + string(rune('a'+2*j)))
+			}
+			cs = append(cs, sb.String())
+		}
+		return cs
+	}
+	w := outWriter{Kind: kind, Chunks: mk(0)}
+	for j := 1; j < k; j++ {
+		w.Prods = append(w.Prods, mk(j))
+	}
+	if kind == "p" {
+		w.Prefix = "m"
+	} else {
+		if c.Rng.Intn(2) == 0 {
+			w.Begin = "::group::m"
+		}
+		if c.Rng.Intn(2) == 0 {
+			w.End = "::end::m"
+		}
+		w.ErrorOnly = c.Rng.Intn(3) == 0
+		w.Failed = c.Rng.Intn(2) == 0
+	}
+	return w
+}
+
+// genRaw: a writer that goes straight to the shared stream (interactive task / Task's own log lines): upper-case
+// content, so that its writes cannot be taken for a prefixed line
+func (c *Ctx) genRaw(j int) outWriter {
+	n := 1 + c.Rng.Intn(6)
+	var cs []string
+	for i := 0; i < n; i++ {
+		s := strings.Repeat(string(rune('R'+j%4)), 1+c.Rng.Intn(4))
+		switch c.Rng.Intn(3) {
+		case 0:
+			cs = append(cs, s, "\n") // the way mvdan/sh's echo writes a line
+		case 1:
+			cs = append(cs, s+"\n")
+		default:
+			cs = append(cs, s)
+		}
+	}
+	return outWriter{Kind: "r", Chunks: cs}
+}
+
 func runOutput(c *Ctx) {
 	if c.Replay(func(raw []byte) (string, string) {
 		var d outCase
@@ -257,6 +388,10 @@ func runOutput(c *Ctx) {
 				if strings.Contains(joined, "\n") {
 					nontriv = true
 				}
+			}
+			if len(w.Prods) > 0 {
+				c.Hit("multi-producer:" + w.Kind)
+				nontriv = true
 			}
 			if len(w.Chunks) == 0 || strings.Join(w.Chunks, "") == "" {
 				c.Hit("empty-output")
@@ -280,6 +415,14 @@ func runOutput(c *Ctx) {
 	emit(outCase{[]outWriter{{Kind: "p", Prefix: "t", Chunks: []string{"ab", "\nc", "d\ne"}}}})
 	emit(outCase{[]outWriter{{Kind: "g", Begin: "B", End: "E", Chunks: []string{"a", "b\n"}}}})
 	emit(outCase{[]outWriter{{Kind: "g", Begin: "B", End: "E", ErrorOnly: true, Chunks: []string{"x"}}}})
+	// the two situations the repairs O8-1 / O8-2 are about
+	emit(outCase{[]outWriter{{Kind: "p", Prefix: "m", Chunks: []string{"aa", "\n", "ab\na", "a", "\n"}, Prods: [][]string{{"cc", "\n", "d", "dc\n", "c"}, {"e\nf", "\n", "ee\n"}}}}})
+	emit(outCase{[]outWriter{{Kind: "g", Begin: "B", End: "E", Chunks: []string{"aa", "\n", "ab\na"}, Prods: [][]string{{"cc", "\n", "d"}, {"e\nf", "\n"}}}}})
+	emit(outCase{[]outWriter{{Kind: "p", Prefix: "b", Chunks: []string{"line 1\nline 2\n", "line 3\n"}}, {Kind: "r", Chunks: []string{"RAW", "\n", "RAW\n"}}}})
+	mp := c.Pick(700, 8000)
+	for i := 0; i < mp; i++ {
+		emit(outCase{[]outWriter{c.genMulti([]string{"p", "g"}[c.Rng.Intn(2)])}})
+	}
 	n := c.Pick(3000, 40000)
 	for i := 0; i < n; i++ {
 		kind := []string{"p", "g"}[c.Rng.Intn(2)]
@@ -320,6 +463,15 @@ func runOutput(c *Ctx) {
 				w.Chunks = append([]string{fmt.Sprintf("<%d>", j)}, w.Chunks...)
 			}
 			ws = append(ws, w)
+		}
+		// prefixed: every other run has one or two raw writers among the prefixed ones (a task with `interactive: true`
+		// gets output.Interleaved whatever the style; Task's own log lines go to the stream directly): their writes may
+		// land between two prefixed lines, never inside one
+		if kind == "p" && c.Rng.Intn(2) == 0 {
+			for r := 1 + c.Rng.Intn(2); r > 0; r-- {
+				ws = append(ws, c.genRaw(r))
+			}
+			c.Hit("raw-among-prefixed")
 		}
 		emit(outCase{ws})
 	}
